@@ -530,6 +530,7 @@ func c09Case(c *Ctx) {
 	}
 	// --- 2b. support over a complete cell (one small recipe per case)
 	rec := smallCharRecipe(c.R, 5, 3, 0)
+	rec.Require, rec.RequireSets = 0, nil // no requirement: every candidate is a password and the recipe is never refused
 	sem := oracle.CharSemOf(rec)
 	if len(sem.Alphabet) > 0 {
 		valid, _ := sem.EnumerateValid(100000)
